@@ -17,6 +17,7 @@ import (
 	"sync/atomic"
 	"time"
 
+	"vh/c12wsp"
 	. "vh/lib"
 
 	"github.com/cnotch/ipchub/av/format/rtp"
@@ -508,6 +509,11 @@ func runCase(c Val) Val {
 
 func init() {
 	commands["C12"] = runCase
+	// the WSP variant (service/wsp) lives in its own package
+	c12wsp.SdpText = sdpText
+	for k, f := range c12wsp.Commands() {
+		commands[k] = f
+	}
 
 	// what the real SDP parser + getControlPath make of SDP text <id>
 	commands["sdp"] = func(c Val) Val {
